@@ -76,6 +76,20 @@ class SBytes:
     def __bool__(self):
         return len(self.o) > 0
 
+    def decode(self, encoding="utf-8", errors="strict"):
+        """ASCII-range model: every symbolic octet must be < 128 (else the path is outside the model)"""
+        from sxl.sstr import SStr
+        from sxl import explore
+        if encoding.lower().replace("_", "-") not in ("utf-8", "utf8", "ascii"):
+            raise explore.Inconclusive("SBytes.decode(%r) not modelled" % encoding)
+        small = conj(_t(x < 128) for x in self.o)
+        if small.__class__ is Bit:
+            if not explore.decide(small):
+                raise explore.Inconclusive("decoding symbolic non-ASCII UTF-8 is not modelled")
+        elif not small:
+            raise explore.Inconclusive("decoding symbolic non-ASCII UTF-8 is not modelled")
+        return SStr(list(self.o))
+
     def hex(self, *a):
         return "".join("%02x" % x if isinstance(x, int) else "??" for x in self.o)
 
